@@ -745,8 +745,14 @@ def judge(ctx, c, small, st):
             mix = np.atleast_2d(np.asarray(chem.mixProfile, float))
             ok = ctx.check_eq('mixProfile shape', list(mix.shape), [len(m_rows), n], small)
             if ok:
-                ctx.check_close('mixProfile vs Chemistry.chemistry', mix.ravel(), np.array(m_rows).ravel(), small,
+                # trace rows: relative; fill rows are 1 - (sum of traces) shared out, so their ABSOLUTE rounding error is a few ulp
+                # of one (a smoothed trace near 0.45 comes back 5e-15 off, which is 1.1e-10 of a fill gas left at 4e-5)
+                nfill = len(c['fill_gases'])
+                mr = np.array(m_rows, float)
+                ctx.check_close('mixProfile vs Chemistry.chemistry', mix[nfill:].ravel(), mr[nfill:].ravel(), small,
                                 rel=1e-10, abs_=1e-300)
+                ctx.check_close('mixProfile vs Chemistry.chemistry', mix[:nfill].ravel(), mr[:nfill].ravel(), small,
+                                rel=1e-10, abs_=1e-13)
                 ctx.check_close('muProfile vs Chemistry.muProfile', chem.muProfile, m_mu, small, rel=1e-10)
         if outcome == 'ok' and m_out == 'ok':
             st['accepted'] = dict(rows=np.array(m_rows, float), mu=np.array(m_mu, float), region=region)
